@@ -118,35 +118,66 @@ def run_ops(ctx, exes, lvl, n_cheap, n_exp, hist, ophist):
     ctx.coverage.setdefault("differential", {})["ops lvl%d" % lvl] = dict(ops=len(lref), disagreements=len(dis), unlisted=new)
 
 
+FORCED = {  # H1/H2b steering environments (src/common/generic/include/verif_sign_hooks.h) compared across back-ends
+    "quick": {1: [dict(SQI_VERIF_H1_V2="0"), dict(SQI_VERIF_H1_V2="1"), dict(SQI_VERIF_H1_V2="2"), dict(SQI_VERIF_H1_V2="3"),
+                  dict(SQI_VERIF_H1_BT="0"), dict(SQI_VERIF_H1_BT="1"), dict(SQI_VERIF_HINT20="1")],
+              3: [dict(SQI_VERIF_H1_V2="1"), dict(SQI_VERIF_HINT20="1")],
+              5: [dict(SQI_VERIF_HINT20="1")]},
+    "thorough": {l: [dict(SQI_VERIF_H1_V2=str(k)) for k in range(0, 7)] + [dict(SQI_VERIF_H1_BT=str(b)) for b in range(0, 3)] +
+                    [dict(SQI_VERIF_HINT20="1"), dict(SQI_VERIF_H1_ODD="1"), dict(SQI_VERIF_H1_V2="2", SQI_VERIF_H1_BT="1"),
+                     dict(SQI_VERIF_UV_BRANCH="1"), dict(SQI_VERIF_H1_V2="1", SQI_VERIF_HINT20="1")] for l in (1, 3, 5)},
+}
+
+
 def run_transcripts(ctx, full, lvl, n):
-    """keygen+sign+verify under the DRBG with identical seeds on both builds"""
+    """keygen+sign+verify under the DRBG with identical seeds on both builds — plain, and with the forced-branch hooks
+    (rare signer branches: chosen 2-adic valuation / backtracking of the response, hints >= 20, odd content, find_uv branch)"""
+    import concurrent.futures as cf
     exes = {}
     for be, kind in (("ref", "ref"), ("bw", "broadwell")):
         out = os.path.join(ctx.tmp, "drv_kat_%s_%d" % (be, lvl))
         ctx.cc_harness(KAT, out, lvl, kind=kind, build=full[kind], common="test")
         exes[be] = out
     rng = ctx.rng.fork("c06:kat:%d" % lvl)
-    lines = ["%096x %d" % (rng.bits(384), rng.choice([0, 1, 32, 33, 200])) for _ in range(n)]
-    import concurrent.futures as cf
-    with cf.ThreadPoolExecutor(2) as ex:
-        fr = ex.submit(G.run_c, exes["ref"], lines)
-        fb = ex.submit(G.run_c, exes["bw"], lines)
-        outs = {"ref": fr.result(), "bw": fb.result()}
-    bad = 0
-    for i, l in enumerate(lines):
-        ctx.case(("kat", lvl, i))
-        r, b = outs["ref"][i], outs["bw"][i]
-        if i == 0:
-            ctx.sample(dict(level=lvl, seed_line=l[:40] + "...", transcript=r[:160] + "..."))
-        if r != b or "verdict=1" not in r:
-            bad += 1
-            what = "transcripts differ" if r != b else "honest signature rejected / no result"
-            ctx.violation("kat:lvl%d:%s" % (lvl, "differ" if r != b else "verdict"),
-                          "keygen+sign+verify with identical DRBG seed: %s [lvl%d]" % (what, lvl),
-                          dict(level=lvl, seed_line=l, ref_transcript=r, x86_transcript=b,
-                               how_to_replay="echo '<seed_line>' | drv_kat (tools/harness/drv_kat.c) linked against each build with libsqisign_common_test.a"))
-    ctx.obligation("transcripts ref vs broadwell lvl%d (%d seeds)" % (lvl, n), bad == 0, "%d differing" % bad)
-    ctx.coverage.setdefault("differential", {})["transcripts lvl%d" % lvl] = dict(seeds=n, differing=bad)
+    jobs = [({}, ["%096x %d" % (rng.bits(384), rng.choice([0, 1, 32, 33, 200])) for _ in range(n)])]
+    per = 1 if ctx.quick else 3
+    for env in FORCED["quick" if ctx.quick else "thorough"][lvl]:
+        jobs.append((env, ["%096x 32" % rng.bits(384) for _ in range(per)]))
+
+    def both(job):
+        env, lines = job
+        with cf.ThreadPoolExecutor(2) as ex:
+            fr = ex.submit(vlib.run_c, [exes["ref"]], lines, 3000, env)
+            fb = ex.submit(vlib.run_c, [exes["bw"]], lines, 3000, env)
+            (_, ro, _), (_, bo, _) = fr.result(), fb.result()
+        return ro, bo
+    with cf.ThreadPoolExecutor(6) as ex:
+        results = list(ex.map(both, jobs))
+    bad, total, signed = 0, 0, 0
+    forced_cov = {}
+    for (env, lines), (ro, bo) in zip(jobs, results):
+        tag = ",".join("%s=%s" % kv for kv in sorted(env.items())) or "plain"
+        for i, l in enumerate(lines):
+            total += 1
+            ctx.case(("kat", lvl, tag, i))
+            r = ro[i] if i < len(ro) else "<no output from the ref build>"
+            b = bo[i] if i < len(bo) else "<no output from the x86 build>"
+            if tag == "plain" and i == 0:
+                ctx.sample(dict(level=lvl, seed_line=l[:40] + "...", transcript=r[:160] + "..."))
+            okr = "ok=1 " in r
+            signed += okr
+            forced_cov[tag] = forced_cov.get(tag, 0) + (1 if okr else 0)
+            wrong_verdict = okr and "verdict=1" not in r
+            unmet_plain = tag == "plain" and not okr
+            if r != b or wrong_verdict or unmet_plain:
+                bad += 1
+                what = "transcripts differ" if r != b else "honest signature rejected / no signature"
+                ctx.violation("kat:lvl%d:%s:%s" % (lvl, tag, "differ" if r != b else "verdict"),
+                              "keygen+sign+verify with identical DRBG seed (%s): %s [lvl%d]" % (tag, what, lvl),
+                              dict(level=lvl, seed_line=l, env=env, ref_transcript=r, x86_transcript=b,
+                                   how_to_replay="echo '<seed_line>' | env <env> drv_kat (tools/harness/drv_kat.c) linked against each hooked build with libsqisign_common_test.a"))
+    ctx.obligation("transcripts ref vs broadwell lvl%d (%d runs, %d signed; plain + forced branches)" % (lvl, total, signed), bad == 0, "%d differing" % bad)
+    ctx.coverage.setdefault("differential", {})["transcripts lvl%d" % lvl] = dict(runs=total, signed=signed, differing=bad, signed_per_steering=forced_cov)
 
 
 def search(ctx):
@@ -174,7 +205,8 @@ def run(ctx):
     for lvl in (1, 3, 5):
         run_ops(ctx, exes, lvl, n_cheap, n_exp, hist, ophist)
     for lvl in (1, 3, 5):
-        G.gcd_sweep(ctx, exes[("bw", lvl)], G.LEVELS[lvl], "bw", thorough=not quick, ref_exe=exes[("ref", lvl)])
+        G.gcd_sweep(ctx, exes[("bw", lvl)], G.LEVELS[lvl], "bw", thorough=not quick, ref_exe=exes[("ref", lvl)],
+                    mmax=400 if quick else 2000)   # quick: the full m < 2000 sweep runs in C07; both builds take ~3 min to build
     ntr = {1: 5, 3: 3, 5: 2} if quick else {1: 120, 3: 50, 5: 30}
     for lvl in (1, 3, 5):
         run_transcripts(ctx, full, lvl, ntr[lvl])
